@@ -1,7 +1,7 @@
 (* Model/C10Run.v - case type and checker evaluated on harness-generated cases (C10).
    The checker runs Model/Retry.v's [run] / [backoff] (the functions the theorems are about)
    on the program the harness executed on the real client and compares with what it saw. *)
-From ReqV Require Export Lib.Bytes Model.Retry.
+From ReqV Require Export Lib.Bytes Model.Retry Model.RetryUpload.
 
 (* the harness's retry conditions and hooks, as data *)
 Inductive cond_spec :=
@@ -71,7 +71,22 @@ Record obs := mkObs {
 Inductive c10_case :=
 | RunCase (c : client) (cops rops : list rop_spec) (s : rstate) (script : list ain)
           (detect : bytes) (hkeys : list bytes) (o : obs)
-| BackoffCase (mn mx attempt : Z) (d : Z).   (* d = interval returned by the real function *)
+| BackoffCase (mn mx attempt : Z) (d : Z)    (* d = interval returned by the real function *)
+| UploadCase (cform rform : amap) (fs : list mfile) (dtab : list (bytes * bytes))
+             (o : list (list part)) (failed : bool).
+      (* a multipart program: client-level and request-level form data, file sources,
+         DetectContentType as a table; per attempt the parts seen on the wire, and whether the
+         call was ended by a refused retry (RetryAttempt counted a retry that was never sent) *)
+
+Definition lookup_detect (tab : list (bytes * bytes)) (k : bytes) : bytes :=
+  match find (fun e => bytes_eqb (fst e) k) tab with Some e => snd e | None => [] end.
+
+Definition part_eqb (a b : part) : bool :=
+  match a, b with
+  | PField k v, PField k' v' => bytes_eqb k k' && bytes_eqb v v'
+  | PFile p n c x, PFile p' n' c' x' => bytes_eqb p p' && bytes_eqb n n' && bytes_eqb c c' && bytes_eqb x x'
+  | _, _ => false
+  end.
 
 Definition pair_eqb (a b : bytes * bytes) : bool := bytes_eqb (fst a) (fst b) && bytes_eqb (snd a) (snd b).
 Definition entry_eqb (a b : bytes * list bytes) : bool :=
@@ -112,4 +127,8 @@ Definition c10_check (cs : c10_case) : bool :=
   | BackoffCase mn mx a d =>
       (* d is a value of [backoff] for some draw: take u = d - half *)
       (backoff mn mx a (d - backoff_half mn mx a) =? d)%Z
+  | UploadCase cform rform fs dtab o failed =>
+      let n := (length o + (if failed then 1 else 0))%nat in
+      let r := mp_attempts file_read (lookup_detect dtab) n 0 (add_values cform rform) fs in
+      list_eqb (list_eqb part_eqb) (fst r) o && Bool.eqb (snd r) failed
   end.
